@@ -96,9 +96,16 @@ def se_delta_method(expr, values, cov):
 
 
 def is_positive_semidefinite(A):
-    """Checks whether a matrix is positive semi-definite"""
+    """Checks whether a matrix is positive semi-definite
+
+    An eigenvalue that is negative only by rounding error (a singular positive
+    semidefinite matrix such as [[3, 3], [3, 3]] has a computed eigenvalue of about -4e-16)
+    does not make the matrix invalid.
+    """
     eigvals, _ = np.linalg.eig(A)
-    return all(eigvals >= 0)
+    eigvals = np.real(eigvals)
+    tol = 8 * np.finfo(float).eps * max(1.0, float(np.max(np.abs(eigvals)))) * len(eigvals)
+    return all(eigvals >= -tol)
 
 
 def is_posdef(A):
